@@ -50,6 +50,13 @@ class FieldMachine(StructMachine):
                 self._amt_val = z3.Function("amount_val", z3.StringSort(), z3.Float64())
                 self.amount_texts = []
             return Res(self._amt_ok(sz), FPV(self._amt_val(sz)), Opaque("amount-error"))
+        if m[2] is None and name == "validate_amount_decimals":
+            for a in arg_exprs:
+                self.eval(a, fr, guard)
+            if not hasattr(self, "_dec_ok"):
+                self._dec_ok = z3.Function("decimals_ok", z3.Float64(), z3.StringSort(), z3.BoolSort())
+            args = [self.eval(a, fr, guard) for a in arg_exprs]
+            return Res(self._dec_ok(to_fp(args[0]), to_strz(args[1])), UNIT, Opaque("decimals-error"))
         return super().invoke(m, arg_exprs, fr, guard, self_ty, turbofish, recv, recv_expr)
 
 
@@ -92,7 +99,7 @@ def val_eq(a, b):
     raise Unsupported("cannot compare %s with %s" % (type(a).__name__, type(b).__name__))
 
 
-def check_type(prog, ty, tag, L=6, timeout_ms=30000):
+def check_type(prog, ty, tag, L=6, timeout_ms=10000):
     """one case per concrete number of input lines (1..L): keeps the line structure of the text concrete"""
     res = []
     flat = check_type_flat(prog, ty, tag, timeout_ms)
@@ -103,6 +110,8 @@ def check_type(prog, ty, tag, L=6, timeout_ms=30000):
         res += rs
         if rs and rs[0]["verdict"] in ("not-encoded", "error"):
             break
+        if any(r["verdict"] == "unknown" for r in rs):
+            break      # larger inputs will not be decided either
     return res
 
 
